@@ -3,27 +3,40 @@
 // Parts (all exhaustive products of the stated alphabets, nothing sampled):
 //
 //	matrix  id x threshold x payload length x content class: Pack, judge the emitted bytes with the
-//	        independent frame reader (ref/refframe), then UnPack with the same threshold from a
-//	        ByteReader source and a plain io.Reader, into a fresh / reused-smaller / reused-larger
-//	        receiver, with a sentinel tail after the frame.
+//	        independent frame reader (ref/refframe), then UnPack with the same threshold from every
+//	        source kind (sources.go: ByteReader, plain reader, one-byte reads, ragged reads, last
+//	        bytes delivered together with io.EOF) into a fresh / reused-smaller / reused-larger /
+//	        emptied-exact-capacity receiver, with a sentinel tail after the frame.
 //	stream  every sequence of <= 3 (thorough 4) frames over an 8-frame alphabet, plus one 50-frame
-//	        chain, packed with one sender Packet into one buffer and read back with one receiver.
-//	conn    net.Conn (WrapConn, SetThreshold, WritePacket, ReadPacket) over an in-memory duplex pipe:
-//	        default threshold, then two threshold changes, both directions; and the small matrix.
+//	        chain, packed with one sender Packet into one buffer and read back from every source
+//	        kind (a) with one reused receiver, (b) with a fresh receiver per frame, all received
+//	        packets kept and compared again after the whole stream plus one more frame was read.
+//	conn    net.Conn (WrapConn or Listener.Accept over an in-memory net.Listener; SetThreshold,
+//	        WritePacket, ReadPacket) over an in-memory duplex pipe that delivers whole / ragged /
+//	        one-byte reads: the state the constructor leaves (no compression), then three threshold
+//	        changes, both directions, received packets kept to the end; and the small matrix.
 //	reject  hand-built malformed frames: data length negative / above 2 MiB / non-zero below the
 //	        threshold / smaller than the packet id it must contain; packet length negative, zero,
-//	        too short for its header fields; every strict prefix of valid frames.
+//	        too short for its header fields; every strict prefix of valid frames; complete frames
+//	        in the format without compression whose payload is longer than 2 MiB.
+//	edge, loopback  see families.go.
 //
 // Unspecified (executed and counted, never a violation):
 //   - id+payload larger than 2 MiB (outside the statement's domain);
 //   - in the format without compression, frames whose id+payload is within the domain are all
-//     judged; whether a receiver accepts id+payload in (2 MiB, 2 MiB + idLen] is not fixed;
+//     judged; whether a receiver accepts id+payload in (2 MiB, 2 MiB + idLen] is not fixed
+//     (the reject part only uses payloads > 2 MiB, which exceed the maximum under either reading);
+//   - compression format, data length 0 (plain body) and a body longer than 2 MiB: the rejection
+//     clause speaks about the declared size, which is the data length field there;
 //   - frames whose zlib stream inflates to MORE than the declared size, or that carry bytes after
 //     the zlib stream: the rejection clause lists only negative / too large / below-threshold sizes;
 //   - non-minimal VarInt header fields in emitted frames (a conformant reader accepts them).
 //
 // Left out (see report): steering sync.Pool hand-outs (bufPool/zlibPool) through a shim; the pools
 // are exercised only in their default single-goroutine order plus whatever the parallel workers cause.
+// The kept-packet comparisons of the stream and conn parts make a received payload that still
+// lives in a pooled buffer visible in that default order (the next UnPack on the goroutine gets
+// the same buffer back), independent of worker interleaving.
 package main
 
 import (
@@ -32,7 +45,6 @@ import (
 	"encoding/json"
 	"errors"
 	"fmt"
-	"io"
 	"math"
 	"net"
 	"sort"
@@ -59,8 +71,12 @@ type Case struct {
 	Chain   bool   `json:"chain,omitempty"`
 	T2      int    `json:"threshold2,omitempty"` // conn history
 	T3      int    `json:"threshold3,omitempty"`
+	Pipe    int    `json:"pipe,omitempty"`         // conn: 0 whole reads, 1 ragged reads, 2 one-byte reads
+	Accept  bool   `json:"accept,omitempty"`       // conn: end b comes from Listener.Accept instead of WrapConn
 	Mal     string `json:"malformation,omitempty"` // reject
 	Hex     string `json:"hex,omitempty"`          // reject: the stream handed to UnPack
+	Gen     string `json:"generator,omitempty"`    // reject: the stream is generated from ID, Len, Tail instead
+	Tail    bool   `json:"tail,omitempty"`         // reject (generated): sentinel bytes follow the frame
 }
 
 var (
@@ -69,7 +85,7 @@ var (
 	master [3][]byte // content classes: zeros, LCG bytes, short repeating pattern
 	tail   = []byte{0xee, 0x5a, 0xa5, 0xee, 0x00, 0xff, 0x80, 0x01}
 
-	packs, unpacks, unspecOutOfDomain, unspecNonCanon int64
+	packs, unpacks, unspecOutOfDomain, unspecNonCanon, unspecPlainBodyOverMax int64
 )
 
 var contentNames = [...]string{"zeros", "lcg", "pattern"}
@@ -94,13 +110,6 @@ func payload(content, n int) []byte { return master[content][:n:n] }
 
 type fail struct {
 	class, detail string
-}
-
-func srcName(s int) string {
-	if s == 0 {
-		return "bytereader"
-	}
-	return "plain"
 }
 
 func modeName(T int, deflated bool) string {
@@ -146,6 +155,7 @@ func judgeFrame(stream []byte, id int32, data []byte, T int, fails *[]fail) (ref
 		return f, false
 	}
 	mode = modeName(T, f.Deflated)
+	noteEdge(f)
 	if f.ID != id || !bytes.Equal(f.Payload, data) {
 		*fails = append(*fails, fail{"pack/" + mode + "/frame-carries-different-id-or-payload",
 			fmt.Sprintf("Pack(id=%d, %d payload bytes, threshold %d): the reference reader finds id=%d and %d payload bytes (equal=%v) in the frame %s", id, len(data), T, f.ID, len(f.Payload), bytes.Equal(f.Payload, data), clip(stream))})
@@ -170,23 +180,24 @@ func receiver(state int, id int32, n int) pk.Packet {
 	case 2: // reused, larger than needed (longer, with spare capacity)
 		d := bytes.Repeat([]byte{0xee}, n+40)
 		return pk.Packet{ID: ^id, Data: d[: n+7 : n+40]}
+	case 3: // reused, emptied (len 0) with exactly the capacity needed
+		d := bytes.Repeat([]byte{0xee}, n)
+		return pk.Packet{ID: ^id, Data: d[:0:n]}
 	}
 	return pk.Packet{}
 }
 
-var recvNames = [...]string{"fresh-receiver", "reused-smaller-receiver", "reused-larger-receiver"}
+const nRecv = 4
 
-// unpackFrom runs UnPack on stream from the given source kind; returns err and bytes consumed.
-func unpackFrom(q *pk.Packet, stream []byte, src, T int) (err error, consumed int) {
+var recvNames = [nRecv]string{"fresh-receiver", "reused-smaller-receiver", "reused-larger-receiver", "reused-emptied-exact-capacity-receiver"}
+
+// unpackFrom runs UnPack on stream (wireLen bytes of frames followed by the sentinel tail) from
+// the given source kind; returns err and bytes consumed.
+func unpackFrom(q *pk.Packet, stream []byte, wireLen, src, T int) (err error, consumed int) {
 	atomic.AddInt64(&unpacks, 1)
-	if src == 0 {
-		r := bytes.NewReader(stream)
-		err = q.UnPack(r, T)
-		return err, len(stream) - r.Len()
-	}
-	r := &engine.PlainReader{Data: stream}
+	r := newSource(src, stream, wireLen)
 	err = q.UnPack(r, T)
-	return err, r.Pos
+	return err, r.Consumed()
 }
 
 // judgeMatrix: one (id, T, len, content) case. Returns failures; unspec=true when out of domain.
@@ -218,12 +229,18 @@ func judgeMatrix(c Case) (fails []fail, unspec bool) {
 	}
 	stream := append(append(make([]byte, 0, len(wire)+len(tail)), wire...), tail...)
 	mode := modeName(c.T, c.T >= 0 && c.Len >= c.T)
-	for recv := 0; recv < 3; recv++ {
-		for src := 0; src < 2; src++ {
+	for recv := 0; recv < nRecv; recv++ {
+		for src := 0; src < nSrc; src++ {
+			if recv != 0 && src >= 2 {
+				continue // the three fragmenting sources only with the fresh receiver (the stream part crosses them with a reused one)
+			}
+			if c.Len >= bigLen && src == 2 {
+				continue // no one-byte reads for payloads >= 1 MiB (ragged reads and EOF-with-data stay)
+			}
 			q := receiver(recv, c.ID, c.Len)
 			var err error
 			var consumed int
-			kind, frame, panicked := engine.Guard(func() { err, consumed = unpackFrom(&q, stream, src, c.T) })
+			kind, frame, panicked := engine.Guard(func() { err, consumed = unpackFrom(&q, stream, len(wire), src, c.T) })
 			pre := "unpack/" + mode + "/" + srcName(src) + "/"
 			what := fmt.Sprintf("UnPack(threshold %d, %s, %s) of the frame packed from id=%d with %d bytes of %s (%s)", c.T, srcName(src), recvNames[recv], c.ID, c.Len, contentNames[c.Content], clip(wire))
 			switch {
@@ -336,46 +353,82 @@ func judgeStream(c Case) (fails []fail) {
 		fails = append(fails, fail{"stream/pack/bytes-after-the-last-frame", fmt.Sprintf("%d bytes written, the frames account for %d", len(wire), off)})
 	}
 	stream := append(append(make([]byte, 0, len(wire)+len(tail)), wire...), tail...)
-	for src := 0; src < 2; src++ {
-		var q pk.Packet // one receiver for the whole stream
-		var r io.Reader
-		br := bytes.NewReader(stream)
-		prd := &engine.PlainReader{Data: stream}
-		pos := func() int {
-			if src == 0 {
-				return len(stream) - br.Len()
-			}
-			return prd.Pos
-		}
-		if src == 0 {
-			r = br
-		} else {
-			r = prd
-		}
-		for i, s := range specs {
-			var err error
-			atomic.AddInt64(&unpacks, 1)
-			kind, frame, panicked := engine.Guard(func() { err = q.UnPack(r, c.T) })
+	for src := 0; src < nSrc; src++ {
+		// discipline 0: one receiver reused for the whole stream; discipline 1: a fresh receiver per
+		// frame, every received packet is kept and looked at again after the stream (and one more
+		// frame, the churn frame, into yet another Packet) has been read
+		for disc := 0; disc < 2; disc++ {
+			var q pk.Packet
+			kept := make([]pk.Packet, len(specs))
+			r := newSource(src, stream, len(wire))
 			pre := "stream/unpack/" + srcName(src) + "/"
-			what := fmt.Sprintf("frame %d of the sequence (id=%d, %d bytes of %s, threshold %d), reused receiver", i, s.id, s.n, contentNames[s.content], c.T)
-			if panicked {
-				fails = append(fails, fail{pre + "panic/" + frame + "/" + kind, what + ": UnPack panicked " + kind})
-				break
+			rname := "reused receiver"
+			if disc == 1 {
+				pre += "fresh-receivers/"
+				rname = "fresh receiver per frame"
 			}
-			if err != nil {
-				fails = append(fails, fail{pre + "error-on-own-frame", what + ": UnPack returned " + err.Error()})
-				break
+			complete := true
+			for i, s := range specs {
+				dst := &q
+				if disc == 1 {
+					dst = &kept[i]
+				}
+				var err error
+				atomic.AddInt64(&unpacks, 1)
+				kind, frame, panicked := engine.Guard(func() { err = dst.UnPack(r, c.T) })
+				what := fmt.Sprintf("frame %d of the sequence (id=%d, %d bytes of %s, threshold %d), %s", i, s.id, s.n, contentNames[s.content], c.T, rname)
+				if panicked {
+					fails = append(fails, fail{pre + "panic/" + frame + "/" + kind, what + ": UnPack panicked " + kind})
+					complete = false
+					break
+				}
+				if err != nil {
+					fails = append(fails, fail{pre + "error-on-own-frame", what + ": UnPack returned " + err.Error()})
+					complete = false
+					break
+				}
+				if dst.ID != s.id || !bytes.Equal(dst.Data, payload(s.content, s.n)) {
+					fails = append(fails, fail{pre + "wrong-id-or-payload", fmt.Sprintf("%s: UnPack returned id=%d and %d payload bytes (payload equal=%v)", what, dst.ID, len(dst.Data), bytes.Equal(dst.Data, payload(s.content, s.n)))})
+				}
+				if r.Consumed() != ends[i] {
+					fails = append(fails, fail{pre + "consumed-not-exactly-one-frame", fmt.Sprintf("%s: stream position %d after UnPack, the frame ends at %d", what, r.Consumed(), ends[i])})
+					complete = false
+					break
+				}
 			}
-			if q.ID != s.id || !bytes.Equal(q.Data, payload(s.content, s.n)) {
-				fails = append(fails, fail{pre + "wrong-id-or-payload", fmt.Sprintf("%s: UnPack returned id=%d and %d payload bytes (payload equal=%v)", what, q.ID, len(q.Data), bytes.Equal(q.Data, payload(s.content, s.n)))})
-			}
-			if pos() != ends[i] {
-				fails = append(fails, fail{pre + "consumed-not-exactly-one-frame", fmt.Sprintf("%s: stream position %d after UnPack, the frame ends at %d", what, pos(), ends[i])})
-				break
+			if disc == 1 && complete {
+				// churn: one more frame of the same format through UnPack into a Packet of its own
+				// (no verdict on it), then every packet received before must still be what was sent
+				var junk pk.Packet
+				atomic.AddInt64(&unpacks, 1)
+				engine.Guard(func() { _ = junk.UnPack(bytes.NewReader(churnFrame(c.T)), c.T) })
+				for i, s := range specs {
+					if kept[i].ID != s.id || !bytes.Equal(kept[i].Data, payload(s.content, s.n)) {
+						fails = append(fails, fail{pre + "received-packet-changed-by-later-unpack", fmt.Sprintf("frame %d of the sequence (id=%d, %d bytes of %s, threshold %d) was received intact into its own Packet, but after the following frames were read into other Packets it holds id=%d and %d payload bytes that differ from what was sent", i, s.id, s.n, contentNames[s.content], c.T, kept[i].ID, len(kept[i].Data))})
+						break
+					}
+				}
 			}
 		}
 	}
 	return fails
+}
+
+// churnFrame is a frame larger than any in the stream alphabets, in the format of threshold T with
+// a plain (not deflated) body, built by the reference writer. It is only used to make one more
+// UnPack call run after the frames under test.
+var churnFrames [2][]byte
+
+func churnFrame(T int) []byte {
+	if T < 0 {
+		return churnFrames[0]
+	}
+	return churnFrames[1]
+}
+
+func initChurn() {
+	churnFrames[0] = refframe.AppendPlain(nil, 5, payload(1, 70100)[7:])
+	churnFrames[1] = refframe.AppendCompressionMode(nil, 5, payload(1, 70100)[7:], false)
 }
 
 // ---------------------------------------------------------------------------------------------
@@ -383,6 +436,8 @@ func judgeStream(c Case) (fails []fail) {
 
 type pipeEnd struct {
 	in, out *bytes.Buffer
+	sizes   []int // nil: Read delivers all that is asked; else at most sizes[k mod len] on the k-th call
+	k       int
 }
 
 type pipeAddr struct{}
@@ -390,7 +445,15 @@ type pipeAddr struct{}
 func (pipeAddr) Network() string { return "mem" }
 func (pipeAddr) String() string  { return "mem" }
 
-func (p *pipeEnd) Read(b []byte) (int, error)         { return p.in.Read(b) }
+func (p *pipeEnd) Read(b []byte) (int, error) {
+	if len(p.sizes) > 0 && len(b) > 0 {
+		if s := p.sizes[p.k%len(p.sizes)]; s < len(b) {
+			b = b[:s]
+		}
+		p.k++
+	}
+	return p.in.Read(b)
+}
 func (p *pipeEnd) Write(b []byte) (int, error)        { return p.out.Write(b) }
 func (p *pipeEnd) Close() error                       { return nil }
 func (p *pipeEnd) LocalAddr() net.Addr                { return pipeAddr{} }
@@ -399,13 +462,41 @@ func (p *pipeEnd) SetDeadline(t time.Time) error      { return nil }
 func (p *pipeEnd) SetReadDeadline(t time.Time) error  { return nil }
 func (p *pipeEnd) SetWriteDeadline(t time.Time) error { return nil }
 
-func newPipe() (a, b *pipeEnd, ab, ba *bytes.Buffer) {
+// pipe delivery modes (Case.Pipe)
+var pipeNames = [...]string{"whole-reads", "ragged-reads", "one-byte-reads"}
+
+func pipeSizes(mode int) []int {
+	switch mode {
+	case 1:
+		return raggedSizes
+	case 2:
+		return []int{1}
+	}
+	return nil
+}
+
+func newPipe(mode int) (a, b *pipeEnd, ab, ba *bytes.Buffer) {
 	ab, ba = new(bytes.Buffer), new(bytes.Buffer)
-	return &pipeEnd{in: ba, out: ab}, &pipeEnd{in: ab, out: ba}, ab, ba
+	return &pipeEnd{in: ba, out: ab, sizes: pipeSizes(mode)}, &pipeEnd{in: ab, out: ba, sizes: pipeSizes(mode)}, ab, ba
+}
+
+// memListener is a net.Listener whose Accept hands out one prepared in-memory connection, so that
+// Listener.Accept (the server-side constructor of a Conn) is reached without a socket.
+type memListener struct{ c net.Conn }
+
+func (l memListener) Accept() (net.Conn, error) { return l.c, nil }
+func (l memListener) Close() error              { return nil }
+func (l memListener) Addr() net.Addr            { return pipeAddr{} }
+
+// received keeps what a ReadPacket returned together with what was sent, to be looked at again later.
+type received struct {
+	q    pk.Packet
+	spec frameSpec
+	what string
 }
 
 // connExchange sends one packet from w to r over wire (the buffer between them) and judges it.
-func connExchange(w, r *mcnet.Conn, wire *bytes.Buffer, s frameSpec, T int, dir string, fails *[]fail) bool {
+func connExchange(w, r *mcnet.Conn, wire *bytes.Buffer, s frameSpec, T int, dir string, fails *[]fail, keep *[]received) bool {
 	data := payload(s.content, s.n)
 	var err error
 	atomic.AddInt64(&packs, 1)
@@ -433,14 +524,18 @@ func connExchange(w, r *mcnet.Conn, wire *bytes.Buffer, s frameSpec, T int, dir 
 	kind, frame, panicked = engine.Guard(func() { err = r.ReadPacket(&q) })
 	if panicked {
 		*fails = append(*fails, fail{"conn/ReadPacket/panic/" + frame + "/" + kind, what + ": " + kind})
+		wire.Reset()
 		return false
 	}
 	if err != nil {
 		*fails = append(*fails, fail{"conn/ReadPacket/error-on-peer-frame", fmt.Sprintf("%s: ReadPacket returned %v for the frame %s", what, err, clip(onWire))})
+		wire.Reset()
 		return false
 	}
 	if q.ID != s.id || !bytes.Equal(q.Data, data) {
 		*fails = append(*fails, fail{"conn/ReadPacket/wrong-id-or-payload", fmt.Sprintf("%s: got id=%d, %d payload bytes", what, q.ID, len(q.Data))})
+	} else if keep != nil {
+		*keep = append(*keep, received{q, s, what})
 	}
 	if wire.Len() != 0 {
 		*fails = append(*fails, fail{"conn/ReadPacket/consumed-not-exactly-one-frame", fmt.Sprintf("%s: %d bytes left in the pipe after reading the only frame", what, wire.Len())})
@@ -449,34 +544,61 @@ func connExchange(w, r *mcnet.Conn, wire *bytes.Buffer, s frameSpec, T int, dir 
 	return true
 }
 
-// judgeConn: history = [default threshold] frame0 a->b; SetThreshold(T) frame1 b->a; SetThreshold(T2) frame2 a->b;
-// SetThreshold(T3) frame2 b->a. With Len set (small matrix): one exchange a->b at threshold T.
+// judgeConn: history = [state after the constructor: no compression] frame0 a->b (Accept: and b->a);
+// SetThreshold(T) frame1 b->a; SetThreshold(T2) frame2 a->b; SetThreshold(T3) frame2 b->a; finally
+// every packet received on the way (each into a Packet of its own) must still be what was sent.
+// With Frames == nil (small matrix): one exchange a->b at threshold T.
+// End a is a WrapConn; end b is a WrapConn or, with c.Accept, what Listener.Accept returns.
 func judgeConn(c Case) (fails []fail) {
-	ea, eb, ab, ba := newPipe()
-	a, b := mcnet.WrapConn(ea), mcnet.WrapConn(eb)
+	ea, eb, ab, ba := newPipe(c.Pipe)
+	a := mcnet.WrapConn(ea)
+	var b *mcnet.Conn
+	ctor := "WrapConn"
+	if c.Accept {
+		ctor = "Listener.Accept"
+		srv, err := mcnet.Listener{Listener: memListener{eb}}.Accept()
+		if err != nil {
+			return []fail{{"conn/Accept/error-from-accepting-listener", "Listener.Accept returned " + err.Error()}}
+		}
+		b = &srv
+	} else {
+		b = mcnet.WrapConn(eb)
+	}
 	if c.Frames == nil {
 		a.SetThreshold(c.T)
 		b.SetThreshold(c.T)
-		connExchange(a, b, ab, frameSpec{c.ID, c.Len, c.Content}, c.T, "a->b", &fails)
+		connExchange(a, b, ab, frameSpec{c.ID, c.Len, c.Content}, c.T, "a->b", &fails, nil)
 		return fails
 	}
-	// WrapConn's initial state: no compression
-	if !connExchange(a, b, ab, frameAlphabet(-1)[c.Frames[0]], -1, "a->b before SetThreshold", &fails) {
+	var keep []received
+	// initial state of a Conn: no compression
+	if !connExchange(a, b, ab, frameAlphabet(-1)[c.Frames[0]], -1, "a->b before SetThreshold (b from "+ctor+")", &fails, &keep) {
+		return fails
+	}
+	if c.Accept && !connExchange(b, a, ba, frameAlphabet(-1)[c.Frames[0]], -1, "b->a before SetThreshold (b from "+ctor+")", &fails, &keep) {
 		return fails
 	}
 	a.SetThreshold(c.T)
 	b.SetThreshold(c.T)
-	if !connExchange(b, a, ba, frameAlphabet(c.T)[c.Frames[1]], c.T, "b->a after SetThreshold", &fails) {
+	if !connExchange(b, a, ba, frameAlphabet(c.T)[c.Frames[1]], c.T, "b->a after SetThreshold", &fails, &keep) {
 		return fails
 	}
 	a.SetThreshold(c.T2)
 	b.SetThreshold(c.T2)
-	if !connExchange(a, b, ab, frameAlphabet(c.T2)[c.Frames[2]], c.T2, "a->b after second SetThreshold", &fails) {
+	if !connExchange(a, b, ab, frameAlphabet(c.T2)[c.Frames[2]], c.T2, "a->b after second SetThreshold", &fails, &keep) {
 		return fails
 	}
 	a.SetThreshold(c.T3)
 	b.SetThreshold(c.T3)
-	connExchange(b, a, ba, frameAlphabet(c.T3)[c.Frames[2]], c.T3, "b->a after third SetThreshold", &fails)
+	if !connExchange(b, a, ba, frameAlphabet(c.T3)[c.Frames[2]], c.T3, "b->a after third SetThreshold", &fails, &keep) {
+		return fails
+	}
+	for _, k := range keep {
+		if k.q.ID != k.spec.id || !bytes.Equal(k.q.Data, payload(k.spec.content, k.spec.n)) {
+			fails = append(fails, fail{"conn/ReadPacket/received-packet-changed-by-later-exchange", k.what + ": the packet was received intact into its own Packet, but after the later exchanges of the history it differs from what was sent"})
+			break
+		}
+	}
 	return fails
 }
 
@@ -569,25 +691,67 @@ func validFrame(T int, id int32, n int) []byte {
 	return refframe.AppendCompressionMode(nil, id, payload(2, n), n >= T)
 }
 
-func judgeReject(c Case, slot int) (fails []fail) {
-	stream, err := hex.DecodeString(c.Hex)
-	if err != nil {
-		engine.HarnessError("bad hex in reject case")
+// Generated reject cases (too long for a hex string): a well-formed frame, complete on the stream,
+// whose payload is c.Len > 2 MiB bytes long.
+//   - format without compression (T < 0): the declared payload size exceeds the protocol maximum,
+//     the receiver must reject it;
+//   - compression format with data length 0 (plain body): the data length field, which is what
+//     the rejection clause speaks about, is 0 = "not compressed"; whether the receiver must refuse
+//     the frame because of its packet length is not fixed by the statement -> executed, counted,
+//     unspecified (only a panic is reported).
+const genOverMax = "payload-over-maximum-complete-frame"
+
+func patternBytes(n int) []byte {
+	b := make([]byte, n)
+	for i := 0; i < n; i += maxData {
+		copy(b[i:], master[2][:maxData])
 	}
+	return b
+}
+
+func rejectStream(c Case) []byte {
+	if c.Gen == "" {
+		stream, err := hex.DecodeString(c.Hex)
+		if err != nil {
+			engine.HarnessError("bad hex in reject case")
+		}
+		return stream
+	}
+	if c.Gen != genOverMax {
+		engine.HarnessError("unknown reject generator %q", c.Gen)
+	}
+	var stream []byte
+	if c.T < 0 {
+		stream = refframe.AppendPlain(nil, c.ID, patternBytes(c.Len))
+	} else {
+		stream = refframe.AppendCompressionMode(nil, c.ID, patternBytes(c.Len), false)
+	}
+	if c.Tail {
+		stream = append(stream, tail...)
+	}
+	return stream
+}
+
+func judgeReject(c Case, slot int) (fails []fail) {
+	stream := rejectStream(c)
+	unspecIfAccepted := c.Gen == genOverMax && c.T >= 0
 	mode := "compression"
 	if c.T < 0 {
 		mode = "no-compression"
 	}
 	for recv := 0; recv < 3; recv += 2 {
-		for src := 0; src < 2; src++ {
+		for src := 0; src < nSrc; src++ {
 			q := receiver(recv, 7, 16)
 			var uerr error
 			wd.Begin(slot, func() string { b, _ := json.Marshal(c); return string(b) })
-			kind, frame, panicked := engine.Guard(func() { uerr, _ = unpackFrom(&q, stream, src, c.T) })
+			kind, frame, panicked := engine.Guard(func() { uerr, _ = unpackFrom(&q, stream, len(stream), src, c.T) })
 			wd.End(slot)
 			pre := "reject/" + mode + "/" + srcName(src) + "/"
 			if panicked {
 				fails = append(fails, fail{pre + "panic/" + frame + "/" + kind + "/" + c.Mal, fmt.Sprintf("UnPack(threshold %d, %s, %s) panicked (%s in %s) on the malformed frame %s [%s]", c.T, srcName(src), recvNames[recv], kind, frame, clip(stream), c.Mal)})
+			} else if uerr == nil && unspecIfAccepted {
+				atomic.AddInt64(&unspecPlainBodyOverMax, 1)
+				rep.Unspec(1)
 			} else if uerr == nil {
 				fails = append(fails, fail{pre + "accepted/" + c.Mal, fmt.Sprintf("UnPack(threshold %d, %s, %s) returned nil error (id=%d, %d payload bytes) for the malformed frame %s [%s]", c.T, srcName(src), recvNames[recv], q.ID, len(q.Data), clip(stream), c.Mal)})
 			}
@@ -792,6 +956,30 @@ func runParts() {
 		record(c, judgeConn(c))
 		atomic.AddInt64(&connCases, 1)
 	})
+	// end b from Listener.Accept: first frame x second frame (third = second) x threshold triple x pipe
+	// delivery {whole reads, ragged reads}
+	var ajobs []Case
+	for f0 := 0; f0 < 8; f0++ {
+		for f1 := 0; f1 < 8; f1++ {
+			for _, t1 := range connTs {
+				for _, t2 := range connTs {
+					for _, t3 := range []int{-1, 64} {
+						for pipe := 0; pipe < 2; pipe++ {
+							ajobs = append(ajobs, Case{Part: "conn", T: t1, T2: t2, T3: t3, Frames: []int{f0, f1, f1}, Pipe: pipe, Accept: true})
+						}
+					}
+				}
+			}
+		}
+	}
+	engine.ParallelFor(len(ajobs), func(slot, i int) {
+		record(ajobs[i], judgeConn(ajobs[i]))
+		atomic.AddInt64(&connCases, 1)
+	})
+	rep.Count("conn_history_cases(WrapConn ends: frame triple x threshold triple)", int64(len(cjobs)))
+	rep.Count("conn_history_cases(Listener.Accept end: frame pair x threshold triple x pipe delivery)", int64(len(ajobs)))
+	rep.Extra("conn_pipe_delivery_menu", pipeNames)
+	rep.Extra("conn_constructors", []string{"WrapConn <-> WrapConn", "WrapConn <-> Listener.Accept (in-memory net.Listener)", "DialMC <-> ListenMC+Accept (loopback TCP, part loopback)"})
 	// small matrix over the Conn
 	var mj []job
 	for _, T := range thresholds {
@@ -809,9 +997,13 @@ func runParts() {
 	engine.ParallelFor(len(mj), func(slot, i int) {
 		j := mj[i]
 		for content := 1; content < 3; content++ {
-			c := Case{Part: "conn", ID: j.id, T: j.T, Len: j.n, Content: content}
-			record(c, judgeConn(c))
-			atomic.AddInt64(&connCases, 1)
+			// content 1: whole reads between WrapConn ends, ragged reads into an Accept end;
+			// content 2: whole reads into an Accept end, one-byte reads between WrapConn ends
+			for k := 0; k < 2; k++ {
+				c := Case{Part: "conn", ID: j.id, T: j.T, Len: j.n, Content: content, Pipe: k * content, Accept: k+content == 2}
+				record(c, judgeConn(c))
+				atomic.AddInt64(&connCases, 1)
+			}
 		}
 	})
 	rep.Count("conn_cases", connCases)
@@ -823,9 +1015,39 @@ func runParts() {
 		c := Case{Part: "reject", T: m.T, Mal: m.name, Hex: hex.EncodeToString(m.stream)}
 		record(c, judgeReject(c, slot))
 	})
-	rep.Count("reject_cases(malformed frame x threshold)", int64(len(mals)))
+	// generated: complete frames whose payload is longer than 2 MiB
+	var gens []Case
+	for _, T := range []int{-1, 0, 256} {
+		for _, id := range bigIDsQuick {
+			for _, n := range []int{maxData + 1, maxData + 2, maxData + 59, 3 << 20, 1 << 22} {
+				if T >= 0 && !((id == 0 || id == -1) && (n == maxData+1 || n == 1<<22)) {
+					continue
+				}
+				for _, tl := range []bool{true, false} {
+					name := "payload-above-maximum/complete-frame"
+					if T >= 0 {
+						name = "plain-body-above-maximum/complete-frame"
+					}
+					gens = append(gens, Case{Part: "reject", T: T, Mal: name, Gen: genOverMax, ID: id, Len: n, Tail: tl})
+				}
+			}
+		}
+	}
+	engine.ParallelFor(len(gens), func(slot, i int) {
+		record(gens[i], judgeReject(gens[i], slot))
+	})
+	rep.Count("reject_cases(malformed frame x threshold)", int64(len(mals)+len(gens)))
+	rep.Count("reject_cases_generated_complete_frames_above_2MiB", int64(len(gens)))
+	rep.Extra("reject_over_maximum_menu", "format without compression (must reject): ids {0,0x80,0x4000,2^21,-1} x payload {2^21+1, 2^21+2, 2^21+59, 3*2^20, 2^22} x {sentinel tail, none}, all bytes present; compression format with data length 0 (unspecified): ids {0,-1} x payload {2^21+1, 2^22} x thresholds {0,256}")
+	rep.Extra("source_kinds", srcNames)
+	rep.Extra("ragged_read_sizes(cyclic)", raggedSizes)
+	rep.Extra("receiver_states", recvNames)
 
-	distinct := matrixCases + streamCases + connCases + int64(len(mals))
+	// ---- edge, loopback (families.go)
+	edgeCases := runEdge(thorough)
+	loopCases := runLoopback()
+
+	distinct := matrixCases + streamCases + connCases + int64(len(mals)+len(gens)) + edgeCases + loopCases
 	rep.NonTrivial(distinct)
 	rep.AddStates(distinct)
 }
@@ -853,6 +1075,8 @@ func judge(c Case) []fail {
 		return judgeConn(c)
 	case "reject":
 		return judgeReject(c, 0)
+	case "loopback":
+		return judgeLoopback(c)
 	}
 	engine.HarnessError("unknown case part %q", c.Part)
 	return nil
@@ -881,13 +1105,15 @@ func finish() {
 	rep.Count("Pack_calls", packs)
 	rep.Count("UnPack_calls", unpacks)
 	rep.Count("unspecified_out_of_domain", unspecOutOfDomain)
+	reportEdgeSeen()
 	rep.Count("unspecified_noncanonical_header_varint", unspecNonCanon)
+	rep.Count("unspecified_plain_body_above_2MiB_in_compression_format_accepted", unspecPlainBodyOverMax)
 	rep.Finish()
 }
 
 func main() {
 	rep = engine.NewReport("C07")
-	rep.Rule = "one case per element of the stated products: matrix (id x threshold x payload length x content class; each runs 1 Pack + reference parse + 6 UnPack: 3 receiver states x 2 source kinds), stream (frame-index sequence x threshold; + the 50-frame chain per threshold), conn (frame triple x threshold triple; small matrix), reject (malformed frame x threshold). Every case reaches Pack/UnPack, so distinct = non-trivial. evaluations = Pack calls + UnPack calls"
+	rep.Rule = "one case per element of the stated products: matrix (id x threshold x payload length x content class; each runs 1 Pack + reference parse + 20 UnPack: 4 receiver states x {ByteReader, plain} + fresh receiver x the 3 fragmenting source kinds = 11; payloads >= 1 MiB: 10, no one-byte reads), stream (frame-index sequence x threshold, + the 50-frame chain per threshold; each read back 10 times: 5 source kinds x {reused receiver, fresh receivers kept}), conn (WrapConn ends: frame triple x threshold triple; Accept end: frame pair x threshold triple x pipe delivery; small matrix x 2 (pipe delivery, constructor) combinations per content class), reject (malformed frame x threshold, 2 receiver states x 5 source kinds), edge (packet-length boundary x id x window x threshold, judged as matrix cases), loopback (one TCP connection per threshold). Every case reaches Pack/UnPack, so distinct = non-trivial. evaluations = Pack calls + UnPack calls"
 	wd = engine.NewWatchdog(engine.Workers()+1, 30*time.Second, func(desc string) {
 		var c Case
 		json.Unmarshal([]byte(desc), &c)
@@ -896,6 +1122,7 @@ func main() {
 		finish()
 	})
 	initMaster()
+	initChurn()
 	if rep.ReplayPath != "" {
 		replay()
 		return
@@ -906,6 +1133,11 @@ func main() {
 	rep.Sample(Case{Part: "stream", T: 64, Frames: []int{4, 0, 3}})
 	rep.Sample(Case{Part: "conn", T: 0, T2: 256, T3: -1, Frames: []int{1, 5, 2}})
 	rep.Sample(Case{Part: "reject", T: 0, Mal: "data-length-negative/no-body", Hex: "05ffffffff0f"})
+	rep.Sample(Case{Part: "conn", T: 64, T2: 0, T3: -1, Frames: []int{3, 5, 5}, Pipe: 1, Accept: true})
+	rep.Sample(Case{Part: "reject", T: -1, Mal: "payload-above-maximum/complete-frame", Gen: genOverMax, ID: 0x80, Len: maxData + 1, Tail: true})
+	rep.Sample(Case{Part: "loopback", T: 64})
+	rep.Assume("a Conn on which SetThreshold was never called (WrapConn, Listener.Accept, DialMC) has compression disabled, as the protocol starts every connection")
+	rep.Assume("loopback part: 127.0.0.1 TCP; a connection that cannot be set up is counted as skipped, a read that waits longer than 120 s after the peer's write returned is non-termination")
 	rep.Assume("ref/refframe (frame reader on compress/zlib) and ref/refwire are trusted; pinned by self-tests against hand-assembled frames (stored-block zlib stream with hand-computed Adler-32) and the protocol VarInt tables")
 	rep.Assume("sync.Pool hand-out order (bufPool, zlibPool) is not steered: default order only")
 	finish()
